@@ -321,7 +321,7 @@ def detSum (shift : Pt) : List Pt → Rat
       ((a.x - shift.x) * (b.y - shift.y) - (a.y - shift.y) * (b.x - shift.x)) + detSum shift (b :: rest)
   | _ => 0
 
-def twiceSignedRingArea (r : List Pt) : Rat :=
+def affTwiceSignedRingArea (r : List Pt) : Rat :=
   if r.length < 3 then 0 else
   if r.head? ≠ r.getLast? then 0 else
   match r with
